@@ -54,8 +54,8 @@ def jobs():
     ]
 
 
-PENDING = ('walk_container', 'cif_walk')   # under development: not part of the registered check until they discharge
+PENDING = ('walk_container',)   # under development: not part of the registered check until they discharge
 
 
 def check(tier):
-    return vlib.run_property('C14', [j for j in jobs() if j.name not in PENDING], tier, LEVEL, UNDECIDED)
+    return vlib.run_property('C14', [j for j in jobs() if j.name not in PENDING or __import__('os').environ.get('VERIF_JOBS')], tier, LEVEL, UNDECIDED)
